@@ -70,18 +70,13 @@ def bucket (n : Nat) : String :=
 
 def joinReasons (l : List String) : String := if l.isEmpty then "-" else ",".intercalate l.eraseDups
 
-/-- which walk the running code has: `false` = the `rangeEnd == 0` sentinel (code as pinned),
-`true` = the suggested fix with an explicit flag. Flip when the fix is committed. -/
-def codeHasFix : Bool := false
-def rangesForInstanceCode := if codeHasFix then rangesForInstanceF else rangesForInstance
-
 def handleInst (f : List String) : String × String × String :=
   match f with
   | [ds, cfg, ks, ranges, bits, owners] =>
     match parseDesc ds, cfg.splitOn ",", natList? ks, parseRes ranges with
     | some d, [za, rf, op, id], some keys, some impl =>
       let rfN := rf.toNat?.getD 0
-      let m := rangesForInstanceCode d (za == "1") rfN id
+      let m := rangesForInstance d (za == "1") rfN id
       let zone := ((d.get? id).map (·.zone)).getD ""
       let mBits := match m with | .ok tr => bitsOf tr keys includesKey | .error _ => "-"
       let all := tokenInsts d
@@ -96,12 +91,6 @@ def handleInst (f : List String) : String × String × String :=
         | some tr =>
           (if wellFormed tr then [] else ["ranges-malformed"]) ++
           (if keys.isEmpty then [] else intervalConsistency tr keys bits ++ exactness bits (owners.splitOn ",") id)
-      -- classify the one known failure class (for known_findings matching only): the single uncovered key is 0,
-      -- the zone holds token 0 and the instance owns token 1
-      let failing := ((keys.zip bits.toList).zip (owners.splitOn ",")).filter fun ((_, b), o) => (b == '1') != (o == id)
-      let judge := if judge == ["ownership-without-range"] && failing.map (·.1.1) == [0]
-          && zt.any (·.1 == 0) && zt.any (fun p => p.1 == 1 && p.2.id == id)
-        then ["ownership-without-range:key0-own1-zone0"] else judge
       let mine := (zt.filter (·.2.id == id)).length
       let first := zt.head?
       let tags := s!"inst res={if ranges.startsWith "ok" then "ok" else ranges} op={op} zones={(zonesOf d).length} zt={bucket zt.length} mine={bucket mine} t0={(first.map (·.1 == 0)).getD false} ownFirst={(first.map (·.2.id == id)).getD false} own1={zt.any fun p => p.1 == 1 && p.2.id == id}"
@@ -121,19 +110,13 @@ def handleTile (f : List String) : String × String × String :=
     match parseDesc ds, cfg.splitOn ",", parseAssoc obs with
     | some d, [za, rf], some impl =>
       let rfN := rf.toNat?.getD 0
-      let model := ";".intercalate (d.map fun i => i.id ++ "=" ++ showRes (rangesForInstanceCode d (za == "1") rfN i.id))
+      let model := ";".intercalate (d.map fun i => i.id ++ "=" ++ showRes (rangesForInstance d (za == "1") rfN i.id))
       let diff := if model == obs then "-" else "model=" ++ model
       -- judge: per zone, if every instance of the zone reported ranges, they tile the key space
       let judge := (zonesOf d).flatMap fun z =>
         let members := (d.filter (·.zone == z)).map (·.id)
         let rs := members.map fun id => (impl.find? (·.1 == id)).bind (·.2)
-        if rs.all Option.isSome then
-          let ivs := rs.flatMap fun r => pairs (r.getD [])
-          let t := tiling ivs
-          let zt := zoneTokens d z
-          if t == ["tile-gap"] && tiling ((0, 0) :: ivs) == [] && zt.any (·.1 == 0) && zt.any (·.1 == 1)
-          then ["tile-gap:key0-own1-zone0"] else t
-        else []
+        if rs.all Option.isSome then tiling (rs.flatMap fun r => pairs (r.getD [])) else []
       let ok := impl.all (·.2.isSome)
       let tags := s!"tile res={if ok then "ok" else "err"} zones={(zonesOf d).length} inst={bucket d.length}"
       (diff, joinReasons judge, tags)
